@@ -1,0 +1,6 @@
+//go:build !verif
+
+package sstables
+
+// no-op twin of the verification hook in verif_on.go (build tag "verif")
+func verifWriterOpened(writer *SSTableStreamWriter) {}
